@@ -271,7 +271,12 @@ func runC12(c *core.Ctx) {
 			}
 			c.Instance("R4")
 			sel := types.NewMethodSet(types.NewPointer(n)).Lookup(n.Obj().Pkg(), "Close")
-			name := "wrapper-close-touches-write-sink/" + n.Obj().Name()
+			// named by what the variant buffers, not by its (unexported, renameable) type name
+			class := "write-buffered"
+			if len(rs) > 0 {
+				class = "read+write-buffered"
+			}
+			name := "wrapper-close-touches-write-sink/" + class
 			if sel == nil {
 				c.OK("R4", name, "", "no Close")
 				return
